@@ -124,6 +124,26 @@ def gen_server(tree):
         out += "Definition %s : list text := %s.\n\n" % (coq_ident(name), "[\n  " + ";\n  ".join(ctext(v) for v in vals) + "\n]")
     out += "(* def is_private_attribute(%s): translated statement by statement *)\n" % tr.x
     out += "Definition is_private_attribute (%s : text) : bool :=\n%s\n" % (tr.x, body)
+    # the per-class metadata cache of _get_exposed_members: what is it keyed on?
+    gm = find_func(mod, "_get_exposed_members")
+    need(len(gm.args.args) >= 1, "_get_exposed_members takes no parameter")
+    objname = gm.args.args[0].arg
+    uses_cache = any(isinstance(n, ast.Name) and n.id.endswith("exposed_member_cache") for n in ast.walk(gm))
+    keyed_by_class = True
+    if uses_cache:
+        keys = [n for n in ast.walk(gm) if isinstance(n, ast.Assign) and len(n.targets) == 1
+                and isinstance(n.targets[0], ast.Name) and n.targets[0].id == "cache_key"]
+        need(len(keys) == 1, "_get_exposed_members: expected exactly one assignment to cache_key, found %d" % len(keys))
+        kv = keys[0].value
+        need(isinstance(kv, ast.Tuple) and len(kv.elts) >= 1, "_get_exposed_members: cache_key is not a tuple")
+        # keyed by the class object itself iff the class (after `obj = obj.__class__` normalisation) is an element of the key
+        keyed_by_class = any(isinstance(e, ast.Name) and e.id == objname for e in kv.elts)
+        subs = [n for n in ast.walk(gm) if isinstance(n, ast.Subscript) and isinstance(n.value, ast.Name)
+                and n.value.id.endswith("exposed_member_cache")]
+        need(all(isinstance(x.slice, ast.Name) and x.slice.id == "cache_key" for x in subs),
+             "_get_exposed_members: the cache is indexed by something other than cache_key")
+    out += "\n(* _get_exposed_members: the metadata cache is keyed by the class object itself (not by a name) *)\n"
+    out += "Definition metadata_cache_keyed_by_class : bool := %s.\n" % cbool(keyed_by_class)
     shas = {"is_private_attribute": ast_sha(f)}
     for fn in ("expose", "_get_attribute", "_get_exposed_members", "_get_exposed_property_value", "_set_exposed_property_value"):
         shas[fn] = ast_sha(find_func(mod, fn))
